@@ -358,3 +358,9 @@ Definition encode_failure (F : msg_table) (code : N) (vs : list fval) : option b
     else Some (be_enc 2 (blen m) ++ m ++ be_enc 2 (failure_len - blen m) ++
                repeat 0 (N.to_nat (failure_len - blen m)))
   end.
+
+(* ---- feature vectors ----
+   A RawFeatureVector is a set of FeatureBit (uint16) = a number n < 2^65536 = 256^8192;
+   its wire form is the minimal big-endian byte string of n (SerializeSize = highest
+   bit / 8 + 1, at most 8192 bytes): feat_of_N k n for any width k with n < 256^k. *)
+Definition feat_of_N (k : nat) (n : N) : bytes := strip0 (be_enc k n).
